@@ -210,7 +210,9 @@ impl Check for C08 {
                         Ok(r) => {
                             out.count("reference_compared", 1);
                             let uni = universe(&p, &[]);
-                            if let Cmp::Different(why) = compare_multisets(&real.answers, &r, &uni) {
+                            if cut_at_cap(real.ended, real.answers.len(), true, r.len()) {
+                                out.count("comparisons_skipped_answer_cap", 1);
+                            } else if let Cmp::Different(why) = compare_multisets(&real.answers, &r, &uni) {
                                 out.violate("M-ref", "committed-choice answers differ from the soft-cut reference", format!("{} | real {} | reference {}", why, show_answers(&real.answers), show_answers(&r)), format!("{}", p));
                             }
                             out.distinct.push(program_key(&p));
@@ -279,7 +281,9 @@ impl Check for C08 {
             match ref_answers(&whole, false) {
                 Ok(r) => {
                     out.count("reference_compared", 1);
-                    if let Cmp::Different(why) = compare_multisets(&real.answers, &r, &uni) {
+                    if cut_at_cap(real.ended, real.answers.len(), true, r.len()) {
+                        out.count("comparisons_skipped_answer_cap", 1);
+                    } else if let Cmp::Different(why) = compare_multisets(&real.answers, &r, &uni) {
                         out.violate("M-ref", "committed-choice answers differ from the soft-cut reference", format!("{} | real {} | reference {}", why, show_answers(&real.answers), show_answers(&r)), format!("{}", whole));
                     }
                 }
@@ -360,7 +364,9 @@ impl Check for C08 {
                 nontrivial = true;
             }
             out.count("decomposition_compared", 1);
-            if let Cmp::Different(why) = compare_multisets(&real.answers, &expected, &uni) {
+            if !real.ended && expected.len() >= real.answers.len() {
+                out.count("comparisons_skipped_answer_cap", 1);
+            } else if let Cmp::Different(why) = compare_multisets(&real.answers, &expected, &uni) {
                 let what = if once { "condu/onceo keep exactly the first head answer of the first clause whose head succeeds" } else { "conda keeps all answers of (head and rest) of the first clause whose head succeeds" };
                 out.violate(
                     "M-meta",
